@@ -146,8 +146,9 @@ class Gen:
         args = [val_ok(t) for t in ins]
         if var:
             fixed = ins[:-1]
-            for k in range(1, len(ins)):                     # checkParams demands NumIn arguments even for variadics
-                out.append((['int' if i >= len(fixed) else fixed[i] for i in range(k)], 'when-few'))
+            for k in range(1, len(fixed)):                   # fewer than the FIXED parameters (when.go:80-90)
+                out.append((fixed[:k], 'when-few'))
+            out.append((fixed + ['int'], 'accept'))
             for p, t in enumerate(fixed):
                 b = val_bad_size(t, rng)
                 if b:
@@ -371,6 +372,11 @@ class Gen:
             """later When/In/Matches on a variadic target: fewer conditions than FIXED parameters must be rejected"""
             fixed, okr = ins[:-1], lst(outs)
             first = f'return {okr}'
+            # a FIRST When may leave the variadic slot empty (f(1) is a legal call); fewer than the fixed parameters is the mistake
+            self.add(f'{head} when {lst(fixed)} ; return {okr}', 'accept')
+            self.add(f'{head} when {lst(fixed + ["int"])} ; return {okr}', 'accept')
+            for k in range(1, len(fixed)):
+                self.add(f'{head} when {lst(fixed[:k])}', 'when-few')
             for via in ('', 'again ; '):
                 for k in range(len(fixed)):
                     few = lst(fixed[:k])
@@ -551,16 +557,16 @@ class Gen:
             if mins and mouts:
                 self.add(f'{hi} when - ; return {lst(mouts)}', 'when-none')
         # In(...) with BARE arguments on a variadic target with ONE fixed parameter (a bare argument is one condition): from the
-        # variadic index on, a bare argument is taken for a slice and expanded (expr.go:75) — anything without a length panics
+        # variadic index on, a bare SLICE is expanded element-wise (expr.go:75), every other bare argument is one condition
         for (head, ins, outs) in [(f'seqf {n} {lst(i)} {lst(o)} 1 0', i, o) for n, (i, o, v) in Z.FUNCS.items() if v and o and len(i) == 2] + \
                                  [(f'seqm {n} {lst(["prc"] + i)} {lst(o)} 1', i, o) for n, (i, o, v) in Z.METHODS.items() if v and o and len(i) == 2]:
             first = f'return {lst(outs)}'
             for a0 in (ins[0], 'any()'):
-                self.add(f'{head} {first} ; in {a0}|int', 'seq-in-bare')
-                self.add(f'{head} {first} ; in {a0}|{a0}|int', 'seq-in-bare')
+                self.add(f'{head} {first} ; in {a0}|int', 'accept')          # expr.go:75: only slices/arrays are expanded
+                self.add(f'{head} {first} ; in {a0}|{a0}|int', 'accept')
                 self.add(f'{head} {first} ; in {a0}|sl', 'accept')
                 self.add(f'{head} {first} ; in {a0}', 'accept')
-                self.add(f'{head} {first} ; again ; in {a0}|bool', 'seq-in-bare')
+                self.add(f'{head} {first} ; again ; in {a0}|bool', 'seq-in-size:0')
         # Interface(&struct whose first field is the variable): same address, not an interface
         for name, (mins, mouts) in Z.IMETHODS.items():
             full = ['ictx'] + mins
